@@ -109,6 +109,11 @@ Theorem C02_mapping_merge_program : forall p en mm prog,
 Proof. exact norm_program_windows. Qed.
 Print Assumptions C02_mapping_merge_program.
 
+(* ... and that tree has no constraint-free mapping directly inside a mapping left (chains collapse completely) *)
+Theorem C02_mapping_merge_complete : forall p, merged (norm p) = true.
+Proof. exact norm_merged. Qed.
+Print Assumptions C02_mapping_merge_complete.
+
 (* the merged mappings are the compositions, pointwise *)
 Theorem C02_merge_composes : forall pm2 pm1 mml2 mml1 en mm,
   (forall x, menv (merge_pm pm2 pm1) en x = menv pm1 (menv pm2 en) x) /\
